@@ -285,6 +285,14 @@ pub fn gen_cal(rng: &mut Rng, working_day: u8, max_hols: usize) -> CalSpec {
         };
         holidays.push((day * DAY + secs, nanos));
     }
+    // two holidays inside one second (same second, another fraction)
+    if !huge && !holidays.is_empty() && rng.chance(0.06) {
+        let (s0, n0) = *rng.pick(&holidays);
+        let twin = (s0, if n0 == 0 { *rng.pick(&[500_000_000u32, 1, 999_999_999]) } else { 0 });
+        if !holidays.contains(&twin) {
+            holidays.push(twin);
+        }
+    }
     rng.shuffle(&mut holidays);
     CalSpec { holidays, mask }
 }
@@ -313,12 +321,46 @@ pub fn gen_union(rng: &mut Rng, max_hols: usize) -> UnionSpec {
     } else {
         rng.usize_in(0, 3)
     };
-    let members = (0..nm).map(|_| gen_cal(rng, w, max_hols)).collect();
-    let settle = match rng.below(3) {
+    let mut members: Vec<CalSpec> = (0..nm).map(|_| gen_cal(rng, w, max_hols)).collect();
+    let mut settle: Option<Vec<CalSpec>> = match rng.below(3) {
         0 => None,
         1 => Some(vec![]),
         _ => Some((0..rng.usize_in(1, 2)).map(|_| gen_cal(rng, w, max_hols)).collect()),
     };
+    // coincidences between the parts of a union: the same calendar twice among the members,
+    // a settlement calendar identical to a member, one holiday shared by two members, two
+    // members' holidays within one second of each other (same second, other fraction)
+    if !members.is_empty() && rng.chance(0.15) {
+        let src = rng.pick(&members).clone();
+        match rng.below(4) {
+            0 => members.push(src),
+            1 => match &mut settle {
+                Some(v) => v.push(src),
+                None => settle = Some(vec![src]),
+            },
+            2 => {
+                if let Some(h) = src.holidays.first().cloned() {
+                    let k = rng.below(members.len() as u64) as usize;
+                    if !members[k].holidays.contains(&h) {
+                        members[k].holidays.push(h);
+                    }
+                }
+            }
+            _ => {
+                if let Some((secs, nanos)) = src.holidays.first().cloned() {
+                    let other = (secs, if nanos == 0 { 500_000_000 } else { 0 });
+                    let k = rng.below(members.len() as u64) as usize;
+                    if !members[k].holidays.contains(&other) {
+                        members[k].holidays.push(other);
+                    }
+                    match &mut settle {
+                        Some(v) if !v.is_empty() && rng.chance(0.3) => v[0].holidays.push(other),
+                        _ => {}
+                    }
+                }
+            }
+        }
+    }
     UnionSpec { members, settle }
 }
 
